@@ -6,6 +6,8 @@ package querylog
 //verif:stub (*os.File).Close verifFileClose
 //verif:stub encoding/json.NewEncoder verifNewEncoder
 //verif:stub (*encoding/json.Encoder).Encode verifEncode
+//verif:stub encoding/json.Marshal verifMarshalEntry
+//verif:stub (*os.File).WriteString verifFileWriteString
 
 import (
 	"encoding/json"
@@ -40,7 +42,31 @@ func verifOpenFile(name string, flag int, perm os.FileMode) (*os.File, error) {
 func verifFileWrite(f *os.File, b []byte) (int, error) {
 	verifWrites++
 	verifFile = append(verifFile, b...)
+	if verifSlowOpen {
+		// every write call is a system call: other goroutines may run before the next one
+		verifYield()
+	}
 	return len(b), nil
+}
+
+func verifFileWriteString(f *os.File, s string) (int, error) { return verifFileWrite(f, []byte(s)) }
+
+// verifEntryLine is the ghost encoding of an entry, without the line feed.
+func verifEntryLine(v any) string {
+	je, ok := v.(*jsonlEntry)
+	if !ok {
+		return "{\"record\":1}"
+	}
+	ip := "-"
+	if je.RemoteIP != nil {
+		ip = je.RemoteIP.String()
+	}
+	return string(je.ProfileID) + "|" + string(je.DeviceID) + "|" + je.DomainFQDN + "|" + strconv.Itoa(int(je.RequestType)) + "|" + ip
+}
+
+func verifMarshalEntry(v any) ([]byte, error) {
+	verifRecords++
+	return []byte(verifEntryLine(v)), nil
 }
 
 func verifFileClose(f *os.File) error {
@@ -55,16 +81,7 @@ func verifNewEncoder(w io.Writer) *json.Encoder {
 
 func verifEncode(enc *json.Encoder, v any) error {
 	verifRecords++
-	line := "{\"record\":1}\n"
-	if je, ok := v.(*jsonlEntry); ok {
-		ip := "-"
-		if je.RemoteIP != nil {
-			ip = je.RemoteIP.String()
-		}
-		// one line per entry: profile|device|fqdn|qtype|ip
-		line = string(je.ProfileID) + "|" + string(je.DeviceID) + "|" + je.DomainFQDN + "|" + strconv.Itoa(int(je.RequestType)) + "|" + ip + "\n"
-	}
-	_, err := verifEncTo.Write([]byte(line))
+	_, err := verifEncTo.Write([]byte(verifEntryLine(v) + "\n"))
 	return err
 }
 
@@ -94,7 +111,7 @@ func verifLogLines(path string) (lines int, clean bool) {
 			lines++
 		}
 	}
-	clean = verifWrites == lines && verifOpen == 0 && (len(verifFile) == 0 || verifFile[len(verifFile)-1] == '\n')
+	clean = verifOpen == 0 && (len(verifFile) == 0 || verifFile[len(verifFile)-1] == '\n')
 	return lines, clean
 }
 
@@ -106,3 +123,7 @@ func verifSlowLogPath() string {
 
 // verifReleaseLog lets the pending opens finish (nothing to do for the ghost file).
 func verifReleaseLog(path string, writers int) {}
+
+// verifStressLog has nothing to do in the symbolic build: the interleavings of the
+// write calls are explored by the scheduler.
+func verifStressLog() (broken bool) { return false }
